@@ -397,6 +397,9 @@ func Explore(t *testing.T, cfg *Config, res *vk.Result, deadline time.Time) {
 	// no GC inside executions: a GC cycle perturbs the order in which freshly spawned
 	// goroutines first run, which is the one thing the explorer cannot control
 	debug.SetGCPercent(-1)
+	// ... but never let the heap run away in allocation-heavy scenarios: with the
+	// percent-based GC off, the runtime still collects when the limit is approached
+	debug.SetMemoryLimit(1500 << 20)
 	startWatchdog(res)
 	t0 := time.Now()
 	defer func() {
@@ -417,16 +420,29 @@ func Explore(t *testing.T, cfg *Config, res *vk.Result, deadline time.Time) {
 		cost   int // preemptions (and data choices when they share the budget)
 		ccost  int // data choices under a separate ChoiceBound
 	}
-	stack := []item{{nil, 0, 0}}
+	// Iterative deviation bounding: every execution with d deviations is run before any
+	// with d+1, so that a budget cut loses only the deepest level.
+	levels := [][]item{{{nil, 0, 0}}}
+	pending := func() int {
+		n := 0
+		for _, l := range levels {
+			n += len(l)
+		}
+		return n
+	}
 	top := 0 // index of direct children of the root, for sharding
 	var execs int64
 	reported := map[string]bool{}
-	for len(stack) > 0 {
-		it := stack[len(stack)-1]
-		stack = stack[:len(stack)-1]
+	for pending() > 0 {
+		lv := 0
+		for len(levels[lv]) == 0 {
+			lv++
+		}
+		it := levels[lv][len(levels[lv])-1]
+		levels[lv] = levels[lv][:len(levels[lv])-1]
 		if time.Now().After(deadline) || (cfg.MaxExecutions > 0 && execs >= cfg.MaxExecutions) {
 			sc.Exhaustive = false
-			sc.Note = fmt.Sprintf("stopped by budget after %d executions; %d subtrees left unexplored", execs, len(stack)+1)
+			sc.Note = fmt.Sprintf("stopped by budget after %d executions in this shard; all executions with < %d deviations were completed, %d subtrees left unexplored", execs, lv, pending()+1)
 			break
 		}
 		if execs%256 == 255 {
@@ -494,7 +510,10 @@ func Explore(t *testing.T, cfg *Config, res *vk.Result, deadline time.Time) {
 					}
 				}
 				p := append(append([]int{}, choices(r.nodes[:i])...), alt)
-				stack = append(stack, item{p, c, cc})
+				for len(levels) <= c+cc {
+					levels = append(levels, nil)
+				}
+				levels[c+cc] = append(levels[c+cc], item{p, c, cc})
 			}
 		}
 		if len(it.prefix) == 0 {
